@@ -91,6 +91,10 @@ class BoxEngine(Engine):
         if general and r.random() < 0.7:
             V = V @ geom.random_rotation(r).T
         size = float(np.abs(V).max())
+        # Box documents that it zeroes vector components below 1e-9 of the largest one ("Zero out near zero terms"); a
+        # component that a random rotation leaves in that band is a cell "closer than the rounding bound" to another cell,
+        # so such components are generated as exact zeros (seen once in 300 000 runs: 8.9e-10 of the cell size)
+        V[np.abs(V) < 1e-7 * size] = 0.0
         o = geom.draw_origin(r, size)
         return V, o
 
